@@ -119,6 +119,14 @@ inductive ErrAt (defs : List (Def K)) (sel : String → Bool) : List String → 
   | later {stack i rest out e} :
       Expands defs sel stack [i] out → ErrAt defs sel stack rest e → ErrAt defs sel stack (i :: rest) e
 
+/-- **Some misuse is reachable** (order-free): an invocation anywhere in `src`, or anywhere in the
+instantiated body of a well-formed selected invocation of `src`, recursively, is misused. -/
+inductive Bad (defs : List (Def K)) (sel : String → Bool) : List String → List (Instr K) → Prop
+  | here {stack src i e} : i ∈ src → LocalErr defs sel stack i e → Bad defs sel stack src
+  | inside {stack src g d body} : Instr.gate g ∈ src →
+      Selected defs sel g d → g.mods = [] → d.name ∉ stack → Instantiates d g body →
+      Bad defs sel (stack ++ [d.name]) (body.map Instr.gate) → Bad defs sel stack src
+
 /-- `u`'s sequence has an element named `v`, and both are AS SEQUENCE definitions. -/
 def Mentions (defs : List (Def K)) (u v : String) : Prop :=
   ∃ d qvars gates e, findDef defs u = some d ∧ d.spec = .seq qvars gates ∧ e ∈ gates ∧ e.name = v ∧
